@@ -284,9 +284,26 @@ def main(a):
         else:
             v.violation("nodes still allocated when the container's scope is left (%d programs)" % heap["scope_exit_leaks"],
                         {"kind": "heap", "note": "every program leaves main with live nodes; see trace"})
-    v.coverage.update({"heap_log": heap})
+    # element types other than int (fixed short histories, oracle written out from the abstract data types)
+    et = element_type_cases()
+    eo = common.run_programs(exe, [c["program"] for c in et], cwd_links=links, timeout=20)
+    listed = {f["id"]: f for f in findings}
+    et_known = {}
+    for c, o in zip(et, eo):
+        nontrivial.add(("elem", c["id"]))
+        if o[0] == c["expect_stdout"] and o[1] == "ok":
+            continue
+        if c["finding"] and c["finding"] in listed:
+            et_known[c["finding"]] = et_known.get(c["finding"], 0) + 1
+            continue
+        v.violation("element-type case %s: expected %r got %r (%s)" % (c["id"], c["expect_stdout"], o[0][-120:], o[1]),
+                    {"kind": "element-type", "case": c["id"], "program": c["program"], "expected": c["expect_stdout"], "impl_stdout": o[0],
+                     "impl_exit_class": o[1], "impl_stderr": o[2][-300:]})
+    for fid, n_ in et_known.items():
+        v.known_finding(listed[fid]["what"] + " [%d fixed programs]" % n_)
+    v.coverage.update({"heap_log": heap, "element_type_programs": len(et)})
     v.coverage.update({
-        "evaluations": len(cases), "distinct_nontrivial": len(nontrivial),
+        "evaluations": len(cases) + len(et), "distinct_nontrivial": len(nontrivial),
         "rule": "operation sequences on the real stdlib containers; Map: after every insert/remove/clear the whole tree "
                 "(keys, values, stored heights) and size are printed and compared with the Lean AVL model (shape-exact), "
                 "plus get/contains/size/height answers; ascending and descending insertion runs of 8..70 keys; Vector and "
@@ -294,8 +311,28 @@ def main(a):
                 "output", "samples": samples, "cases_by_container": dist, "exhaustive": False})
     v.assumptions += ["Vector/Queue are tied to the abstract list model (their linked-list code is not mirrored)",
                       "at()/delete_at() out of range and pop on an empty container are not generated",
-                      "element type int only"]
+                      "the random histories use Vector<int> (small and full-range values), Vector<long> and Queue<int> / Map<int,int>; other element "
+                      "types (string, double, long in queues, string keys / values in maps) only in 8 fixed programs"]
     return v.finish()
+
+
+def element_type_cases():
+    """the same short histories at element types other than int: the container holds what was put into it"""
+    H = "import stdlib.std.vector;\nimport stdlib.std.map;\nimport stdlib.std.queue;\n"
+    cases = []
+
+    def c(cid, body, out, fid=None):
+        cases.append({"id": cid, "program": H + "int main() {\n" + body + "    println(\"END\");\n    return 0;\n}\n", "expect_stdout": out + "END\n", "finding": fid})
+    c("vector-long", "    Vector<long> v;\n    v.push_back(5000000000);\n    v.push_front(0 - 7000000000);\n    v.push_back(3);\n    println(v.at(0), v.at(1), v.at(2), v.get_length());\n    v.pop_front();\n    println(v.at(0), v.get_length());\n",
+      "-7000000000 5000000000 3 3\n5000000000 2\n")
+    c("queue-long", "    Queue<long> q;\n    q.push(5000000000);\n    q.push(7);\n    println(q.pop(), q.size());\n    println(q.pop(), q.size());\n", "5000000000 1\n7 0\n")
+    c("map-string-int", "    Map<string, int> m;\n    m.insert(\"k1\", 1);\n    m.insert(\"k0\", 5);\n    m.insert(\"k1\", 9);\n    println(m.get(\"k1\", 0), m.get(\"k0\", 0), m.get(\"zz\", -1), m.size());\n", "9 5 -1 2\n")
+    c("map-int-string", "    Map<int, string> n;\n    n.insert(1, \"one\");\n    n.insert(2, \"two\");\n    println(n.get(2, \"none\"), n.get(1, \"none\"), n.get(3, \"none\"), n.size());\n", "two one none 2\n")
+    c("vector-string", "    Vector<string> v;\n    v.push_back(\"b\");\n    v.push_back(\"c\");\n    v.push_front(\"a\");\n    println(v.at(0), v.at(1), v.at(2), v.get_length());\n", "a b c 3\n", "string_and_double_elements")
+    c("queue-string", "    Queue<string> q;\n    q.push(\"b\");\n    q.push(\"c\");\n    println(q.pop(), q.size());\n", "b 1\n", "string_and_double_elements")
+    c("vector-double", "    Vector<double> d;\n    d.push_back(2.5);\n    d.push_back(1.25);\n    println(d.at(0), d.at(1), d.get_length());\n", "2.5 1.25 2\n", "string_and_double_elements")
+    c("queue-double", "    Queue<double> q;\n    q.push(2.5);\n    q.push(0.75);\n    println(q.pop(), q.pop(), q.size());\n", "2.5 0.75 0\n", "string_and_double_elements")
+    return cases
 
 
 def model_final_size(kind, ops):
